@@ -10,6 +10,7 @@
 From Coq Require Import ZArith List Bool.
 From Low Require Import Model.Size Spec.SizeSpec Proofs.SizeProofs.
 From Low Require Import Model.SizeFmt Model.SizeStat Spec.SizeStatSpec Proofs.SizeStatProofs.
+From Low Require Import Model.TypeHelper Spec.TypeHelperSpec Proofs.TypeHelperProofs.
 Import ListNotations.
 Open Scope Z_scope.
 
@@ -146,4 +147,50 @@ Example C20_Stat_nonvacuous :
   nth 3 (spec_lines (Some v) 2 2 no_opt) [] = [32; 32; 32; 32; 32; 32; 32; 32; 49; 58; 32; 105; 51; 50; 58; 32; 52] /\
   StatText (Some i32) 5 5 {| avgOf := 3; avgUnit := Some (-3) |} =
     Some [105; 51; 50; 58; 32; 52; 32; 47; 110; 32; 61; 32; 49; 48; 46; 54; 54; 55].
+Proof. vm_compute. repeat split; reflexivity. Qed.
+
+(** ------------------------------------------------------------------------
+    WIDENING 2: typehelper.ToSlice, the helper that turns any slice into a
+    []interface{} (users size the elements one by one, or the boxed slice).
+    Model: Model/TypeHelper.v (Kind test, make, index loop), generic in the
+    element representation and in [box] = what [Index(i).Interface()] makes
+    of an element.  Any length. *)
+
+(** a slice gives one slot per element, in order, each holding the boxed element;
+    anything else panics *)
+Theorem C20_ToSlice : forall (A B : Type) (box : A -> B) (arg : targ A),
+  ToSlice box arg = spec_ToSlice box arg.
+Proof. exact ToSlice_spec. Qed.
+Print Assumptions C20_ToSlice.
+
+Theorem C20_ToSlice_nth : forall (A B : Type) (box : A -> B) s rst i x,
+  ToSlice box (ArgSlice s) = Some rst -> nth_error s i = Some x ->
+  length rst = length s /\ nth_error rst i = Some (Some (box x)).
+Proof. exact ToSlice_length_nth. Qed.
+Print Assumptions C20_ToSlice_nth.
+
+(** size.Of of the result: slice header + per element an interface header and the element
+    (an element that is an interface already is handed over as it is) *)
+Theorem C20_ToSlice_size : forall l rst,
+  Forall supported l ->
+  ToSlice box_value (ArgSlice l) = Some rst ->
+  sizeof (slots_value rst) = Some (spec_ToSlice_size l).
+Proof. exact ToSlice_size. Qed.
+Print Assumptions C20_ToSlice_size.
+
+Theorem C20_ToSlice_size_plain : forall l,
+  Forall (fun x => match x with VIface _ => False | _ => True end) l ->
+  spec_ToSlice_size l = spec_size (VSlice (Some l)) + 16 * Z.of_nat (length l).
+Proof. exact ToSlice_size_plain. Qed.
+Print Assumptions C20_ToSlice_size_plain.
+
+Example C20_ToSlice_nonvacuous :
+  let l := [VString [97; 98]; VIface None; VIface (Some (VScalar KInt8)); VPtr (Some (VScalar KUint))] in
+  ToSlice box_value (ArgSlice l) =
+    Some [Some (VIface (Some (VString [97; 98]))); Some (VIface None); Some (VIface (Some (VScalar KInt8)));
+          Some (VIface (Some (VPtr (Some (VScalar KUint)))))] /\
+  spec_ToSlice_size l = 24 + (16 + 18) + 16 + 17 + (16 + 16) /\
+  ToSlice box_value (targ_of (Some (VArray l))) = None /\
+  ToSlice box_value (targ_of None) = None /\
+  ToSlice box_value (targ_of (Some (VSlice None))) = Some [].
 Proof. vm_compute. repeat split; reflexivity. Qed.
